@@ -98,7 +98,7 @@ def run(chk, tier, seed):
         # fail-fast clause
         import time
         for name in ('fnmatch.fnmatch', 'glob.glob', 'glob.translate'):
-            for pats, excl in ((['{1..100000000}'], None), (['a', '{1..100000000}'], None), (['a'], ['{1..100000000}']), (['a', 'b'], ['{1..100000000}'])):
+            for pats, excl in ((['{1..3000000}'], None), (['a', '{1..3000000}'], None), (['a'], ['{1..3000000}']), (['a', 'b'], ['{1..3000000}'])):
                 for lim in (2, 5):
                     pulls['n'] = 0
                     pulls['budgets'] = []
@@ -174,7 +174,7 @@ def run(chk, tier, seed):
         os.rmdir(tmp2)
     chk.rule = ('bounded stand-in / replay for C11: 1-3 inclusion and 0-2 exclusion brace patterns with all-distinct expansion counts in {1,2,L-1,L,L+1}, L in '
                 f'{limits}, limit in {{L,0}}, through 14 entry points + WcMatch; clauses (i) must raise, (ii) must not raise, (iv) limit=0, work bound via a counting '
-                'wrapper around bracex.iexpand (items pulled, budgets handed over), fail-fast on {1..100000000}, default limit 1000; distinct = (api, L, counts, limit)')
+                'wrapper around bracex.iexpand (items pulled, budgets handed over), fail-fast on {1..3000000}, default limit 1000; distinct = (api, L, counts, limit)')
     chk.bounds.update(dict(c11_shapes=len(shapes), c11_apis=len(apis) + 1, limits=limits))
     chk.sample(dict(api='fnmatch.fnmatch', patterns=['{i0_0,i0_1}', 'i1_'], exclude=['{e0_0,e0_1}'], limit=3))
 
